@@ -731,7 +731,10 @@ impl convert::TryFrom<XmlNode> for Rc<info::XmlItem> {
             XmlNode::Namespace(v) => Rc::new(v.namespace.into()),
             XmlNode::Notation(v) => Rc::new(v.notation.into()),
             XmlNode::PI(v) => Rc::new(v.pi.into()),
-            XmlNode::ExpandedText(_) => unimplemented!("multi text node."),
+            XmlNode::ExpandedText(_) => {
+                // A merged text node stands for several items; it cannot be inserted as one child.
+                return Err(error::DomException::HierarchyRequestErr)?;
+            }
             XmlNode::Text(v) => Rc::new(v.data.into()),
         };
         Ok(v)
